@@ -48,6 +48,7 @@ def dispatch (op : String) (args : List String) : String :=
   | "gdsu" => AlgoRun.handleDsu args
   | "ggetdsu" => AlgoRun.handleGetDsu args
   | "ghascyclic" => AlgoRun.handleHasCyclic args
+  | "gbifurcate" => AlgoRun.handleBifurcate args
   | "gtrav" => AlgoRun.handleTrav args
   | "gsort" => AlgoRun.handleSort args
   | "gsubtopo" => AlgoRun.handleSubTopo args
